@@ -96,11 +96,6 @@ func (db *DB) repairCompactions() error {
 			return err
 		}
 
-		err = os.Rename(absWritePath, absReplacementPath)
-		if err != nil {
-			return err
-		}
-
 		for _, sstablePath := range meta.SstablePaths {
 			if sstablePath != meta.ReplacementPath {
 				err := os.RemoveAll(filepath.Join(db.basePath, sstablePath))
@@ -108,6 +103,13 @@ func (db *DB) repairCompactions() error {
 					return err
 				}
 			}
+		}
+
+		// the rename comes last: as long as the flagged compaction folder exists an interrupted attempt is
+		// repeated from the start, after the rename nothing is left to do
+		err = os.Rename(absWritePath, absReplacementPath)
+		if err != nil {
+			return err
 		}
 	}
 
